@@ -2,6 +2,28 @@
 over the shards; budgets are case counts, never time."""
 
 PROPS = {
+    "C16": {
+        "pkg": "c16", "needs_gw": True, "level": "exploration",
+        "technique": "property-based testing (rapid): bucket-name grammar vs the S3 naming rules; stateful bucket population / ownership / paged ListBuckets model; settings state machine with restarts; (with hooks) schedule-controlled DeleteBucket races",
+        "level_text": ("Four generators: (N) bucket names from a grammar around the rules (length 0-70, allowed and forbidden characters, leading / "
+                       "trailing '.', '-', adjacent periods, IP-shaped, upper case, UTF-8) against utils.IsValidBucketName and CreateBucket (invalid => "
+                       "refused and no directory); (B) programs of creates by different accounts, re-creates by owner and others (must fail and "
+                       "leave the bucket's snapshot unchanged), ownership changes, and ListBuckets by every account with prefix / max-buckets / "
+                       "continuation token followed to the end (exactly the owned buckets, all for admins, ascending, no loss or duplicate); "
+                       "(S) programs of put / get / delete of tags, policy, ACL, ownership controls, versioning, lock configuration with "
+                       "generated documents, interleaved with a fresh gateway taking over the storage: every get returns the last acknowledged "
+                       "write (semantic equality), deleted settings are absent; (R) DeleteBucket racing PutObject / CreateMultipartUpload / "
+                       "CompleteMultipartUpload / CreateBucket under a harness-owned schedule (see C05 machinery)."),
+        "level_note": "AWS-reserved name prefixes / suffixes (xn--, -s3alias ...) are not part of the rules checked. Exploration only.",
+        "rule": ("N: non-trivial = a name of legal length and character set (the remaining rules decide); B: a create on an existing bucket or a paged "
+                 "listing; S: a get after a put / delete of the same setting; R: the delete overlaps an upload. Distinct by full case."),
+        "assumptions": ["in-process engine replicates runGateway wiring"],
+        "jobs": [
+            {"run": "TestC16Names", "quick": 60000, "thorough": 3000000, "shards_quick": 4, "shards_thorough": 16},
+            {"run": "TestC16Buckets", "quick": 6000, "thorough": 300000, "shards_quick": 6, "shards_thorough": 16},
+            {"run": "TestC16Settings", "quick": 6000, "thorough": 300000, "shards_quick": 6, "shards_thorough": 16},
+        ],
+    },
     "C10": {
         "pkg": "c10", "needs_gw": False, "level": "exploration",
         "technique": "stateful property-based testing (rapid) against a lock-state model: protected states x programs of destructive requests x callers x bypass header; oracle = the protected version stays retrievable byte-exact, retention is never weakened illegitimately",
